@@ -162,15 +162,16 @@ struct callres {
 	int guards;
 };
 /* one decoder call on the region cut into segments */
-static struct callres do_call(int seg, unsigned mis, int peek)
+static struct callres do_call(int seg, unsigned mis, int peek, int emp)
 {
 	struct callres cr;
-	struct gbuf g[4];
-	struct iovec vec[4];
-	size_t cut[5], nseg = 1, i, off;
+	struct gbuf *g;
+	struct iovec *vec;
+	size_t *cut, *real, nseg = 1, nvec = 0, i, off;
 	uint8_t *before;
 	size_t start = dst_state.data.pos + dst_state.data.len;
 
+	cut = (size_t *) calloc(reg_len + 3, sizeof(*cut));
 	cut[0] = 0;
 	if (peek || seg == 0 || reg_len < 2) {
 		nseg = 1;
@@ -183,50 +184,48 @@ static struct callres do_call(int seg, unsigned mis, int peek)
 	} else if (seg == 5) {
 		nseg = 2; cut[1] = reg_len - 1;
 	} else {
-		nseg = 0; /* every byte its own segment, handled below */
+		nseg = reg_len;        /* every byte its own part */
+		for (i = 1; i < nseg; i++) cut[i] = i;
 	}
+	cut[nseg] = reg_len;
+	if (peek) emp = 0;         /* sourcelen = 0 means: one part */
 	before = (uint8_t *) malloc(reg_len + 1);
 	memcpy(before, reg, reg_len);
 
-	if (nseg) {
-		cut[nseg] = reg_len;
-		for (i = 0; i < nseg; i++) {
-			size_t n = cut[i + 1] - cut[i];
-			/* the segment holding the message start decides its address */
-			unsigned a = 0;
-			if (start >= cut[i] && (start < cut[i + 1] || i + 1 == nseg)) {
-				a = (unsigned) ((16 + (mis & 15) - ((start - cut[i]) & 15)) & 15);
-			}
-			g_alloc(&g[i], n, a);
-			memcpy(g[i].p, reg + cut[i], n);
-			vec[i].iov_base = g[i].p;
-			vec[i].iov_len = n;
+	/* parts of the vector: the real ones plus zero-length parts
+	 * emp 1: one in front, between all parts and behind; 2: two in a row in front of
+	 * every part; 3: only behind the last part; 4: only in front of the first */
+	g    = (struct gbuf *) calloc(3 * nseg + 4, sizeof(*g));
+	vec  = (struct iovec *) calloc(3 * nseg + 4, sizeof(*vec));
+	real = (size_t *) calloc(3 * nseg + 4, sizeof(*real));
+#define ADD_EMPTY() do { g_alloc(&g[nvec], 0, (unsigned) nvec); vec[nvec].iov_base = g[nvec].p; \
+	vec[nvec].iov_len = 0; real[nvec] = (size_t) -1; nvec++; } while (0)
+	for (i = 0; i < nseg; i++) {
+		size_t n = cut[i + 1] - cut[i];
+		/* the part holding the message start decides its address */
+		unsigned a = (unsigned) i;
+		if (start >= cut[i] && (start < cut[i + 1] || i + 1 == nseg)) {
+			a = (unsigned) ((16 + (mis & 15) - ((start - cut[i]) & 15)) & 15);
 		}
-		cr.ret = dfn(&dst_state, vec, peek ? 0 : nseg);
-		cr.guards = 1;
-		for (i = 0; i < nseg; i++) {
-			memcpy(reg + cut[i], g[i].p, g[i].n);
-			if (!g_ok(&g[i])) cr.guards = 0;
-			g_free(&g[i]);
-		}
-	} else {
-		struct gbuf *gg = (struct gbuf *) calloc(reg_len + 1, sizeof(*gg));
-		struct iovec *vv = (struct iovec *) calloc(reg_len + 1, sizeof(*vv));
-		for (i = 0; i < reg_len; i++) {
-			g_alloc(&gg[i], 1, (i == start) ? mis : (unsigned) i);
-			gg[i].p[0] = reg[i];
-			vv[i].iov_base = gg[i].p;
-			vv[i].iov_len = 1;
-		}
-		cr.ret = dfn(&dst_state, vv, reg_len);
-		cr.guards = 1;
-		for (i = 0; i < reg_len; i++) {
-			reg[i] = gg[i].p[0];
-			if (!g_ok(&gg[i])) cr.guards = 0;
-			g_free(&gg[i]);
-		}
-		free(gg); free(vv);
+		if (emp == 1 || emp == 2 || (emp == 4 && !i)) ADD_EMPTY();
+		if (emp == 2) ADD_EMPTY();
+		g_alloc(&g[nvec], n, a);
+		memcpy(g[nvec].p, reg + cut[i], n);
+		vec[nvec].iov_base = g[nvec].p;
+		vec[nvec].iov_len = n;
+		real[nvec] = i;
+		nvec++;
 	}
+	if (emp == 1 || emp == 3) ADD_EMPTY();
+#undef ADD_EMPTY
+	cr.ret = dfn(&dst_state, vec, peek ? 0 : nvec);
+	cr.guards = 1;
+	for (i = 0; i < nvec; i++) {
+		if (real[i] != (size_t) -1) memcpy(reg + cut[real[i]], g[i].p, g[i].n);
+		if (!g_ok(&g[i])) cr.guards = 0;
+		g_free(&g[i]);
+	}
+	free(g); free(vec); free(real); free(cut);
 	cr.chg_lo = cr.chg_hi = -1;
 	for (off = 0; off < reg_len; off++) {
 		if (before[off] != reg[off]) {
@@ -255,6 +254,7 @@ static void emit_call(struct cmd *c, const struct callres *cr)
 	j_int("len", (long long) reg_len);
 	j_int("chg_hi", cr->chg_hi);
 	j_int("guards", cr->guards);
+	j_int("slack", (long long) dst_state.curr - (long long) dst_state.data.pos - (long long) dst_state.data.len);
 	drv_dbg();
 	j_int("code", cr->ret);
 	j_int("pos", (long long) dst_state.data.pos);
@@ -281,9 +281,12 @@ static void dec_setup(const char *kind, int m, size_t slack)
 
 /* decode a complete stream following the protocol; results are appended
  * to the JSON record as list "res" of {"r":cls,"m":[..]} */
+static int run_emp;      /* zero-length parts in the vectors of run_stream */
 static void run_stream(const uint8_t *data, size_t n, size_t chunk, int seg, unsigned mis,
                        size_t grant, int maxres)
 {
+	int emp = run_emp;
+	long nbslack = -1;    /* largest free room (curr - pos - len) at a MissingBuffer answer, -1 none */
 	size_t fed = 0;
 	int nres = 0, idle = 0, calls = 0, nobuf = 0;
 	long margin = -1;       /* max over the calls of (highest changed offset - final curr), -1 none */
@@ -302,7 +305,7 @@ static void run_stream(const uint8_t *data, size_t n, size_t chunk, int seg, uns
 		} else if (idle) {
 			break;
 		}
-		cr = do_call(seg, mis, 0);
+		cr = do_call(seg, mis, 0, emp);
 		++calls;
 		last = cr.cls;
 		if (strcmp(cr.cls, "nobuf")) nobuf = 0;
@@ -325,6 +328,8 @@ static void run_stream(const uint8_t *data, size_t n, size_t chunk, int seg, uns
 			j_close();
 			break;
 		} else if (!strcmp(cr.cls, "nobuf")) {
+			long sl = (long) dst_state.curr - (long) dst_state.data.pos - (long) dst_state.data.len;
+			if (sl > nbslack) nbslack = sl;
 			/* the caller enlarges its grant while the decoder keeps asking */
 			size_t g = grant << (nobuf < 6 ? nobuf : 6);
 			if (dst_state.curr > reg_len) break;
@@ -341,6 +346,7 @@ static void run_stream(const uint8_t *data, size_t n, size_t chunk, int seg, uns
 	j_str("last", last);
 	j_int("fed", (long long) fed);
 	j_int("wr_margin", margin);
+	j_int("nobuf_slack", nbslack);
 	j_int("guards", guards_good);
 	j_int("calls", calls);
 }
@@ -419,6 +425,7 @@ static void run_queue(const uint8_t *data, size_t n, size_t chunk, size_t grant,
 	j_str("last", last);
 	j_int("fed", (long long) fed);
 	j_int("wr_margin", -1);
+	j_int("nobuf_slack", -1);
 	j_int("guards", 1);
 	j_int("calls", calls);
 	j_int("wraps", wraps);     /* calls made while the ring content was wrapped (dbg) */
@@ -564,6 +571,7 @@ static void emit_frame_and_dec(void)
 	/* protocol-following decode in a separate region */
 	dec_setup(ekind, em, 0);
 	j_open("dec");
+	run_emp = 0;
 	run_stream(f, flen, 0, 0, 0, 8, 2);
 	j_close();
 	free(f);
@@ -824,6 +832,7 @@ static void act_qend(struct cmd *c)
 	j_bytes("wire", w, wl);
 	dec_setup(ekind, em, 0);
 	j_open("dec");
+	run_emp = 0;
 	run_stream(w, wl, 0, 0, 0, 8, 1000);
 	j_close();
 	ring_dbg();
@@ -859,7 +868,8 @@ static void step_inner(struct cmd *c)
 		j_int("len", (long long) reg_len); drv_dbg(); drv_end();
 	}
 	else if (!strcmp(a, "call") || !strcmp(a, "peek")) {
-		struct callres cr = do_call((int) drv_int(c, "seg", 0), (unsigned) drv_uint(c, "mis", 0), a[0] == 'p');
+		struct callres cr = do_call((int) drv_int(c, "seg", 0), (unsigned) drv_uint(c, "mis", 0), a[0] == 'p',
+		                            (int) drv_int(c, "emp", 0));
 		emit_call(c, &cr);
 	}
 	else if (!strcmp(a, "grant")) {
@@ -877,6 +887,7 @@ static void step_inner(struct cmd *c)
 		size_t n; uint8_t *d = drv_bytes(c, "data", &n);
 		dec_setup(drv_raw(c, "kind"), (int) drv_int(c, "m", 0), (size_t) drv_uint(c, "slack", 0));
 		drv_begin(c);
+		run_emp = (int) drv_int(c, "emp", 0);
 		if (!dfn) j_str("ret", "nocodec");
 		else run_stream(d, n, (size_t) drv_uint(c, "chunk", 0), (int) drv_int(c, "seg", 0),
 		                (unsigned) drv_uint(c, "mis", 0), (size_t) drv_uint(c, "grant", 8),
